@@ -155,15 +155,37 @@ func inferType(operand string) string {
 		return "number"
 	}
 
-	// if this looks like a function call, lookup its return type
+	// if this is a function call, lookup its return type
 	matches := functionCallRegex.FindStringSubmatch(operand)
-	if matches != nil {
+	if matches != nil && isFunctionCall(operand) {
 		if datePartRegex.MatchString(operand) {
 			return ""
 		}
 		return functionReturnTypes[matches[1]]
 	}
 	return ""
+}
+
+// whether the parenthesis opened by a function name is closed by the last character, i.e. foo(1, "x") but not foo(1) + 2
+func isFunctionCall(operand string) bool {
+	depth, inString := 0, false
+
+	for i := 0; i < len(operand); i++ {
+		switch ch := operand[i]; {
+		case inString && ch == '\\':
+			i++ // skip escaped character
+		case ch == '"':
+			inString = !inString
+		case !inString && ch == '(':
+			depth++
+		case !inString && ch == ')':
+			depth--
+			if depth == 0 {
+				return i == len(operand)-1
+			}
+		}
+	}
+	return false
 }
 
 var identifierRegex = regexp.MustCompile(`^\pL+[\pL\pN_.]*$`)
